@@ -214,14 +214,18 @@ theorem spec_perm_definitions (s : SchemaD) {d d' : Doc} (h : d.defs.Perm d'.def
 def FullStatement_perm_definitions : Prop :=
   ∀ (s : SchemaD) (d d' : Doc), d.defs.Perm d'.defs → verdict { schema := s } d = verdict { schema := s } d'
 
-/-- full statement: reordering selections / arguments and renaming fragments injectively never changes the
+/-- (PROVED for the chain /repo runs, under the hypotheses of the headline theorems: `Props/C06_chain.lean:
+    chainM_six_transformations`; per rule, all 26: `tr_invariance_all26`.)
+    full statement: reordering selections / arguments and renaming fragments injectively never changes the
     verdict of the chain (renaming of aliases: `Al`, Props/C06_inv6.lean; of variables: `Vr`, Props/C06_inv7.lean,
     C06_inv8.lean - each proved for 25 of the 26 rules) -/
 def FullStatement_tr_invariance : Prop :=
   ∀ (T : Tr), (∀ a b, T.frag a = T.frag b → a = b) → ∀ (s : SchemaD) (d : Doc),
     verdict { schema := s } (T.doc d) = verdict { schema := s } d
 
-/-- full statement of the equivalence with the specification: needs a specification predicate and a
+/-- (PROVED for the chain /repo runs, under the hypotheses of the headline theorems and with the exception flag as an explicit
+    conjunct: `Props/C06_chain.lean: verdictM_iff_spec`, `verdict_chain_iff`; for `verdict` itself: `verdict_iff_spec`.)
+    full statement of the equivalence with the specification: needs a specification predicate and a
     `rule_*_iff` for every rule of `Rule.all` -/
 def FullStatement_verdict_iff (SpecAll : Rule → SchemaD → Doc → Prop) : Prop :=
   ∀ (s : SchemaD) (d : Doc), verdict { schema := s } d = some true ↔ ∀ r ∈ Rule.all, SpecAll r s d
